@@ -14,7 +14,7 @@ Definition Ledger (s : state) : Prop :=
 Lemma ledger_step : forall v s l s', v_fb_fix v = true ->
   Ledger s -> step v s l = Some s' -> Ledger s'.
 Proof.
-  intros v s l s' Hv A H. step_cases H; specialize (A Hnc);
+  intros v s l s' Hv A H. use_fb_fix Hv H. step_cases H; specialize (A Hnc);
     unf; unfold Ledger; simpl; intros Hc j; try discriminate Hc; specialize (A j);
     try (rewrite Hv in *; try discriminate);
     pose_sums (w_rel_id j); pose_sums (w_send_id j);
